@@ -77,6 +77,7 @@ class PModel:
         self.ram = [bytearray(g["raminit"]) for g in lay.groups]
         self.calls = {"r": 0, "w": 0}
         self.fault = None            # (kind 'r'|'w', k, short)
+        self.short_groups = set()    # groups whose reload was cut short by the driver: their RAM content is open
 
     def _short(self, kind, size):
         self.calls[kind] += 1
@@ -98,6 +99,7 @@ class PModel:
                     self.ram[g][:n] = self.nvm[x["off"]:x["off"] + n]
                     if n != x["size"]:
                         err = True
+                        self.short_groups.add(g)
         return err
 
     def restart(self):
@@ -178,6 +180,17 @@ def execute(res, exe, lay, ops, fault, tag, sample=False):
             sim=sim, expected=exp, observed=obs)
         return False
 
+    def compare_others(where):
+        """A short read concerns one group: every other group of the reload still equals the stored image."""
+        for g in range(len(lay.groups)):
+            if g in m.short_groups:
+                continue
+            r = bytes.fromhex(sim.ret("ramdump %d" % g)[0].replace("-", ""))
+            if r != bytes(m.ram[g]):
+                return fail(where + "/other-group-not-reloaded", "the NVM read of group(s) %r was short; RAM block of group %d is %s, reference (stored image) %s" % (
+                    sorted(m.short_groups), g, r.hex(), bytes(m.ram[g]).hex()), bytes(m.ram[g]).hex(), r.hex())
+        return True
+
     def compare():
         nv = bytes.fromhex(sim.ret("nvmdump")[0].replace("-", ""))
         if nv != bytes(m.nvm):
@@ -207,7 +220,7 @@ def execute(res, exe, lay, ops, fault, tag, sample=False):
             fail("init/error", "CONodeGetErr() = %d after a clean initialisation" % ge); return False, m
         if err:
             res.evals += 1; res.counters["faults_injected"] += 1; res.counters["short_reads_surfaced"] += 1
-            return True, m          # which further groups a failed reload still loads is not constrained
+            return compare_others("init"), m
         sim.cmd("start")
         if not compare():
             return False, m
@@ -287,7 +300,7 @@ def execute(res, exe, lay, ops, fault, tag, sample=False):
                     res.evals += 1; res.counters["faults_injected"] += 1; res.counters["short_reads_surfaced"] += 1
                     if stores:
                         res.nt(tag, fault)
-                    return True, m
+                    return compare_others("reset"), m
             else:
                 err = m.restart()
                 sim.cmd("restart")
@@ -302,7 +315,7 @@ def execute(res, exe, lay, ops, fault, tag, sample=False):
                     res.evals += 1; res.counters["faults_injected"] += 1; res.counters["short_reads_surfaced"] += 1
                     if stores:
                         res.nt(tag, fault)
-                    return True, m
+                    return compare_others("restart"), m
             arm()
             if not compare():
                 return False, m
